@@ -5,7 +5,7 @@ import io
 
 import numpy as np
 
-from .. import monitors_tgedmd, monitors_transform, monitors_basis
+from .. import gen, monitors_tgedmd, monitors_transform, monitors_basis
 from ..drive import call
 from ..shard import Workload
 from ._common import arm_light
@@ -57,7 +57,7 @@ def w_product(ctx, rng, idx):
     d = int(rng.integers(1, 4))
     d2 = d if rng.random() < 0.5 else int(rng.integers(1, 4))
     bl = basis(rng, d, 2, 4)
-    x = rng.uniform(-1.2, 1.2, size=d)
+    x = gen.data_matrix(rng, d, lim=1.2)
     b = rng.standard_normal(d)
     sigma = rng.standard_normal((d, d2))
     ctx.describe({'op': 'generator_on_product', 'd': d, 'd2': d2, 'modes': [[type(f).__name__ for f in fl] for fl in bl]})
@@ -77,7 +77,10 @@ def w_amuset(ctx, rng, idx):
     bl = basis(rng, d, 2, 3)
     while int(np.prod([len(f) for f in bl])) * m > 300:
         bl = basis(rng, d, 2, 3)
-    X = rng.uniform(-1.2, 1.2, size=(d, m))
+    X = gen.data_matrix(rng, (d, m), lim=1.2)
+    if monitors_transform.data_tensor_class(X, bl) == 'zero':
+        ctx.skip('amuset_data_tensor_zero')
+        return
     sigma = rng.standard_normal((d, d2, m))
     rev = bool(rng.integers(0, 2))
     b = None if rev else rng.standard_normal((d, m))
